@@ -192,6 +192,9 @@ static long g_aslimit_mb = 0;
 static int g_timeout = 20;
 
 // runs mode P/C/L in a forked child; prints one line
+// extra VFS files for mode L (FILES command): name -> content; files[0] of a DOCV command is the top-level document
+static std::vector<std::pair<std::string, std::string>> g_files;
+
 static void DocForked(char mode, const std::string& doc) {
   int fds[2];
   if (pipe(fds) != 0) { std::printf("%c HARNESS pipe\n", mode); return; }
@@ -219,6 +222,7 @@ static void DocForked(char mode, const std::string& doc) {
       mjVFS vfs;
       mj_defaultVFS(&vfs);
       mj_addBufferVFS(&vfs, "doc.xml", doc.data(), static_cast<int>(doc.size()));
+      for (const auto& f : g_files) mj_addBufferVFS(&vfs, f.first.c_str(), f.second.data(), static_cast<int>(f.second.size()));
       mjModel* m = mj_loadXML("doc.xml", &vfs, err, sizeof err);
       out = m ? "MODEL\t" : "NULL\t";
       out += Esc(err);
@@ -350,6 +354,17 @@ int main(int argc, char** argv) {
       std::sscanf(line.c_str() + 4, "%c %lu", &mode, &n);
       if (!ReadBytes(n, body)) { std::printf("HARNESS short read\n"); return 2; }
       if (mode == 'S') DocSchema(body); else DocForked(mode, body);
+    } else if (!line.compare(0, 5, "FILE ")) {
+      // FILE <name> <nbytes>\n<bytes>\n : add a file to the VFS of the following mode-L documents; "FILES CLEAR" empties it
+      char name[256] = "";
+      unsigned long n = 0;
+      std::sscanf(line.c_str() + 5, "%255s %lu", name, &n);
+      if (!ReadBytes(n, body)) { std::printf("HARNESS short read\n"); return 2; }
+      g_files.push_back({name, body});
+      std::printf("FILE %zu\n", g_files.size());
+    } else if (line == "FILES CLEAR") {
+      g_files.clear();
+      std::printf("FILES 0\n");
     } else if (!line.compare(0, 5, "KEYS ")) {
       // KEYS k1 k2 ... : keyword map for the next LEX k/K commands (value = index)
       keys.clear();
